@@ -63,6 +63,8 @@ type ContractDB struct {
 	PurePkgs map[string]bool
 	NoEffect map[string]bool
 	Prelude  []string // raw smt2 text chunks
+	LitNames map[string]string // string literal -> prelude constant name
+	LitOrder []string
 	Files    []string
 }
 
@@ -73,7 +75,7 @@ type SpecFn struct {
 }
 
 func newContractDB() *ContractDB {
-	return &ContractDB{ByKey: map[string]*Contract{}, Ghosts: map[string]*GhostDecl{}, SpecFns: map[string]*SpecFn{}, PurePkgs: map[string]bool{}, NoEffect: map[string]bool{}}
+	return &ContractDB{ByKey: map[string]*Contract{}, Ghosts: map[string]*GhostDecl{}, SpecFns: map[string]*SpecFn{}, PurePkgs: map[string]bool{}, NoEffect: map[string]bool{}, LitNames: map[string]string{}}
 }
 
 var declFunRE = regexp.MustCompile(`^\(declare-fun\s+(\S+)\s+\(([^)]*)\)\s+(\S+)\)`)
@@ -88,6 +90,19 @@ func (db *ContractDB) loadPrelude(path string) error {
 	db.Files = append(db.Files, path)
 	for _, line := range strings.Split(string(b), "\n") {
 		line = strings.TrimSpace(line)
+		if strings.HasPrefix(line, "; strlit ") {
+			f := strings.SplitN(strings.TrimPrefix(line, "; strlit "), " ", 2)
+			if len(f) == 2 {
+				if lit, err := strconv.Unquote(strings.TrimSpace(f[1])); err == nil {
+					if _, dup := db.LitNames[lit]; !dup {
+						db.LitNames[lit] = f[0]
+						db.LitOrder = append(db.LitOrder, lit)
+						db.SpecFns[f[0]] = &SpecFn{Name: f[0], Res: SV}
+					}
+				}
+			}
+			continue
+		}
 		if m := declFunRE.FindStringSubmatch(line); m != nil {
 			sf := &SpecFn{Name: m[1]}
 			ok := true
@@ -365,7 +380,7 @@ func parseClause(c *Contract, word, rest, src string) error {
 func parseModSpec(s string) (ModSpec, error) {
 	w, r := splitWord(s)
 	switch w {
-	case "heap", "all":
+	case "heap", "all", "fresh":
 		return ModSpec{Kind: w}, nil
 	case "ghost":
 		if i := strings.IndexByte(r, '['); i >= 0 && strings.HasSuffix(r, "]") {
